@@ -83,6 +83,22 @@ def run' (c : Case) : Verdict := Id.run do
       | some i =>
         return { prop := some s!"op {t} solve (handle of matrix {o.k}, nrhs={o.nrhs}, ldb={o.ldb}): B differs from gssv's at position {i}: bridge {showBits (c.raw s!"Bb{t}") i} gssv {showBits (c.raw s!"Bg{t}") i}", tags := tags }
       | none => pure ()
+      -- rows n+1..ldb of the caller's array are not part of the right-hand sides: they must come back untouched
+      let nM := c.pNat s!"M{o.k}.n"; let w := if c.isComplex then 2 else 1
+      let bin := c.raw s!"Bin{t}"; let bb := c.raw s!"Bb{t}"
+      for j in List.range o.nrhs do
+        for i in List.range (o.ldb - nM) do
+          for q in List.range w do
+            let idx := (j * o.ldb + nM + i) * w + q
+            if bin.getD idx 0 ≠ bb.getD idx 0 then
+              return { prop := some s!"op {t} solve (nrhs={o.nrhs}, ldb={o.ldb}, n={nM}): padding row {nM + i + 1} of column {j + 1} of the caller's array was overwritten", tags := tags }
+      -- the solution is the one the C driver returns for the same matrix and right-hand sides held compactly (ldb = n)
+      let bc := c.raw s!"Bc{t}"
+      if bc.size == o.nrhs * nM * w then
+        for j in List.range o.nrhs do
+          for i in List.range (nM * w) do
+            if bc.getD (j * nM * w + i) 0 ≠ bb.getD (j * o.ldb * w + i) 0 then
+              return { prop := some s!"op {t} solve (nrhs={o.nrhs}, ldb={o.ldb}, n={nM}): column {j + 1} differs from what gssv returns for the same right-hand sides stored with ldb = n", tags := tags }
     else if o.kind == "free" then
       liveH := liveH.filter (fun p => p.1 != o.k)
   if c.pInt "live_end" ≠ live0 then
